@@ -1,10 +1,10 @@
-use crate::util::{Compact, TimeUntil};
+use crate::util::{Compact, TimeUntil, MAX_TIMER_SPAN};
 use fnv::FnvHashMap;
 use futures::future::{AbortHandle, AbortRegistration};
 use std::{
     collections::hash_map,
     task::{Context, Poll},
-    time::Instant,
+    time::{Duration, Instant},
 };
 use tokio_util::time::delay_queue::{self, DelayQueue};
 use tracing::Span;
@@ -24,6 +24,8 @@ struct RequestData {
     abort_handle: AbortHandle,
     /// The key to remove the timer for the request's deadline.
     deadline_key: delay_queue::Key,
+    /// How much of the time until the deadline is not yet covered by the armed timer.
+    beyond_timer: Duration,
     /// The client span.
     span: Span,
 }
@@ -55,11 +57,13 @@ impl InFlightRequests {
         match self.request_data.entry(request_id) {
             hash_map::Entry::Vacant(vacant) => {
                 let timeout = deadline.time_until();
+                let timer_span = timeout.min(MAX_TIMER_SPAN);
                 let (abort_handle, abort_registration) = AbortHandle::new_pair();
-                let deadline_key = self.deadlines.insert(request_id, timeout);
+                let deadline_key = self.deadlines.insert(request_id, timer_span);
                 vacant.insert(RequestData {
                     abort_handle,
                     deadline_key,
+                    beyond_timer: timeout - timer_span,
                     span,
                 });
                 Ok(abort_registration)
@@ -74,6 +78,7 @@ impl InFlightRequests {
             span,
             abort_handle,
             deadline_key,
+            ..
         }) = self.request_data.remove(&request_id)
         {
             let _entered = span.enter();
@@ -108,6 +113,16 @@ impl InFlightRequests {
         }
         self.deadlines.poll_expired(cx).map(|expired| {
             let expired = expired?;
+            if let Some(request_data) = self.request_data.get_mut(expired.get_ref()) {
+                if !request_data.beyond_timer.is_zero() {
+                    // The deadline was further away than a single timer can span.
+                    let timer_span = request_data.beyond_timer.min(MAX_TIMER_SPAN);
+                    request_data.beyond_timer -= timer_span;
+                    request_data.deadline_key =
+                        self.deadlines.insert(*expired.get_ref(), timer_span);
+                    return Some(expired.into_inner());
+                }
+            }
             if let Some(RequestData {
                 abort_handle, span, ..
             }) = self.request_data.remove(expired.get_ref())
